@@ -1,10 +1,12 @@
 package cafs
 
 import (
+	"bytes"
 	"context"
 	"errors"
 	"fmt"
 	"io"
+	"io/ioutil"
 	"runtime"
 	"strings"
 	"sync"
@@ -42,7 +44,6 @@ func defaultChunkReader(blobs storage.Store, hash Key, leafSize uint32) *chunkRe
 		fs:                    blobs,
 		hash:                  hash,
 		leafSize:              leafSize,
-		currLeaf:              make([]byte, 0),
 		concurrentChunkWrites: defaultConcurrentWrite,
 		l:                     dlogger.MustGetLogger("info"),
 		maxFetchAhead:         defaultFetchAhead,
@@ -133,7 +134,6 @@ type chunkReader struct {
 	readSoFar             int
 	lastChunk             bool
 	leafTruncation        bool
-	currLeaf              []byte
 	concurrentChunkWrites int
 	l                     *zap.Logger
 	truncation            uint32
@@ -239,12 +239,13 @@ func (r *chunkReader) WriteTo(writer io.Writer) (n int64, err error) {
 		wg.Add(1)
 		i := int64(index) * int64(r.leafSize-r.truncation)
 		concurrencyControl <- struct{}{}
-		go func(writeAt int64, writer io.WriterAt, key Key, cafs storage.Store, wg *sync.WaitGroup) {
+		go func(index int, writeAt int64, writer io.WriterAt, key Key, wg *sync.WaitGroup) {
 			defer func() {
 				<-concurrencyControl
 				wg.Done()
 			}()
-			rdr, err := cafs.Get(context.Background(), r.pather(key)) // thread safe
+			// the leaf is verified before any of its bytes reaches the destination
+			leaf, err := r.verifiedLeaf(index, key) // thread safe
 			if err != nil {
 				errC <- err
 				return
@@ -253,14 +254,13 @@ func (r *chunkReader) WriteTo(writer io.Writer) (n int64, err error) {
 				w:      writer,
 				offset: writeAt,
 			}
-			// TODO(fred): nice - io.CopyBuffer is probably better to get the copy working buffer aligned to leaf buffers
-			written, err := io.Copy(w, rdr) // io.WriteAt is expected to be thread safe.
+			written, err := io.Copy(w, bytes.NewReader(leaf)) // io.WriteAt is expected to be thread safe.
 			if err != nil {
 				errC <- err
 				return
 			}
 			writtenC <- written
-		}(i, w, key, r.fs, &wg)
+		}(index, i, w, key, &wg)
 	}
 	var count int
 	var written int64
@@ -629,11 +629,12 @@ func (r *chunkReader) Read(data []byte) (int, error) {
 	for {
 		key := r.keys[r.idx]
 		if r.rdr == nil {
-			rdr, err := r.fs.Get(context.Background(), r.pather(key))
+			// the leaf is verified before any of its bytes is handed out
+			leaf, err := r.verifiedLeaf(r.idx, key)
 			if err != nil {
 				return r.readSoFar, err
 			}
-			r.rdr = rdr
+			r.rdr = ioutil.NopCloser(bytes.NewReader(leaf))
 		}
 
 		n, errRead := r.rdr.Read(data[r.readSoFar:])
@@ -646,7 +647,6 @@ func (r *chunkReader) Read(data []byte) (int, error) {
 			r.l.Debug("End cafs reader Read", zap.Int("length", bytesToRead))
 		}()
 
-		r.currLeaf = append(r.currLeaf, data[r.readSoFar:r.readSoFar+n]...)
 		if errRead != nil {
 			r.rdr.Close() // TODO(fred): nice - why are we ignoring errors here?
 			r.readSoFar += n
@@ -654,23 +654,6 @@ func (r *chunkReader) Read(data []byte) (int, error) {
 				r.idx++
 				r.rdr = nil
 				r.lastChunk = r.idx == len(r.keys)
-				if r.withVerifyHash {
-					nodeOffset := r.idx
-					isLastNode := false
-
-					// NOTE: we follow the checksumming scheme adopted by the writer.
-					// The writer behaves in a way a bit unexpected here: not only offets don't start at zero
-					// as one might expect, but the last node is not flagged as the last one
-					// when the content size is aligned with the leaf size.
-					if r.lastChunk && uint32(len(r.currLeaf)) != r.leafSize {
-						nodeOffset--
-						isLastNode = true
-					}
-					r.l.Debug("cafs reader Read: hash verification", zap.Stringer("key", key))
-					if err := r.verifyHash(key, r.currLeaf, nodeOffset, isLastNode); err != nil {
-						return 0, err
-					}
-				}
 				if r.lastChunk { // this was the last chunk, so also EOF for this hash
 					if n == bytesToRead {
 						return n, nil
@@ -678,7 +661,6 @@ func (r *chunkReader) Read(data []byte) (int, error) {
 					return r.readSoFar, io.EOF
 				}
 				// move on to the next key
-				r.currLeaf = make([]byte, 0)
 				continue
 			}
 			return n, errRead
@@ -692,6 +674,26 @@ func (r *chunkReader) Read(data []byte) (int, error) {
 			return bytesToRead, nil
 		}
 	}
+}
+
+// verifiedLeaf fetches the whole blob of the index-th leaf and, when hash verification is enabled, verifies it
+func (r *chunkReader) verifiedLeaf(index int, key Key) ([]byte, error) {
+	rdr, err := r.fs.Get(context.Background(), r.pather(key))
+	if err != nil {
+		return nil, err
+	}
+	defer rdr.Close()
+	data, err := ioutil.ReadAll(rdr)
+	if err != nil || !r.withVerifyHash {
+		return data, err
+	}
+	// NOTE: we follow the checksumming scheme adopted by the writer: offsets start at 1 and the
+	// last node is not flagged as such when the content size is aligned with the leaf size.
+	offset, isLastNode := index+1, false
+	if index+1 == len(r.keys) && uint32(len(data)) != r.leafSize {
+		offset, isLastNode = index, true
+	}
+	return data, r.verifyHash(key, data, offset, isLastNode)
 }
 
 func (r *chunkReader) verifyHash(key Key, data []byte, offset int, isLastNode bool) error {
